@@ -349,6 +349,8 @@ func propC03() *PropSpec {
 			js = append(js, jobsN("html", "VerifHTMLBodyStart", []int{0}, "4 head parts x 4 fillers x 12 first body children (script, style, link, meta, noscript, template, base, title, p, text, div) x KeepComments / KeepDocumentTags / KeepEndTags / KeepWhitespace: the child is parsed into the body again")...)
 			js = append(js, jobsN("html", "VerifHTMLTableSections", pick(rng(1, 3), rng(1, 4)), "a table of n parts out of 7 (thead / tbody / tfoot with rows, bare rows, comments, white space) x KeepComments / KeepEndTags / KeepWhitespace: same row groups (reference: the in-table insertion modes)")...)
 			js = append(js, jobsN("html", "VerifHTMLDoctypeMode", []int{0}, "18 doctypes (HTML5, legacy-compat, HTML 2.0 / 3.2 / 4.0 / 4.01 and XHTML 1.0 / 1.1 strict, transitional, frameset, unknown names) x 3 prefixes x options: the document mode selected (quirks / limited-quirks / no-quirks, HTML 13.2.6.4.1) is unchanged")...)
+			js = append(js, jobsN("html", "VerifHTMLSpaceBeforeInline", []int{0}, "47 inline / replaced elements (incl. svg, math, custom) as the last thing of 9 block templates: the space between the preceding text and the element is kept")...)
+			js = append(js, jobsN("html", "VerifHTMLEnumAttr", []int{0}, "38 enumerated / numeric attributes with a non-default value x 3 quotings x padding x KeepDefaultAttrVals / KeepQuotes: the value survives")...)
 			js = append(js, jobsN("html", "VerifHTMLCommentLookahead", []int{0}, "6 openers whose end tag omission depends on the next element x 5 comment / white space fillers x 13 continuations (elements, script, template) x options: same tree")...)
 			js = append(js, jobsN("html", "VerifHTMLCaseAttr", pick(rng(0, 2), rng(0, 3)), "20 tag/attribute pairs with case-sensitive values (list type, form values, labels, ids): value kept exactly")...)
 			js = append(js, jobsN("html", "VerifHTMLNonDefaults", []int{0}, "18 tag/attribute/value triples where the value is not the default (formmethod, formenctype, type, method ...): attribute kept")...)
@@ -552,6 +554,7 @@ func propC05() *PropSpec {
 			js = append(js, jobsN("svg", "VerifSVGPathArc", pick([]int{1, 2}, []int{1, 2}), "arc with compact flags; n>=2: implicitly repeated arcs")...)
 			js = append(js, jobsN("svg", "VerifSVGAttr", []int{0}, "26 root attributes x 26 x 9 child attributes x Inline x KeepComments")...)
 			js = append(js, Job{Pkg: "svg", Fn: "VerifSVGTwin", N: 0, ExpectFail: true, Desc: "vacuity twin"})
+			js = append(js, jobsN("svg", "VerifSVGLengthUnits", pick(rng(1, 3), rng(1, 4)), "9 length attributes x 15 unit spellings (px pt pc mm cm in em ex % rem q, mixed case, none) x n symbolic digits (+ .5): same number, same unit, only px dropped")...)
 			js = append(js, jobsN("svg", "VerifSVGTextAttrs", []int{0}, "13 text-valued attributes (id, class, href, xlink:*, xml:lang, font-family, data-*, aria-*, ...) x 12 values that look like numbers or dimensions x 4 elements: kept byte for byte")...)
 			js = append(js, jobsN("svg", "VerifSVGTextSpaces", pick(rng(1, 3), rng(1, 4)), "<svg><text>U1..Un</text></svg> with units out of 10 (letters, spaces, tab, tspan / a children with inner spaces), with and without xml:space=preserve: same rendered string (SVG white-space rules)")...)
 			js = append(js, jobsN("svg", "VerifSVGEntities", pick(rng(0, 2), rng(0, 3)), "<svg><text a=\"U..\">U..</text></svg>, <= n units each (references to < & > \" and text): well-formed, same character data and attribute value")...)
